@@ -3,8 +3,10 @@ package webrtc
 // C11 — SDP origin keeps a fixed session id and a strictly increasing version.
 //
 // Domain: programs on one PeerConnection P (with a peer Q that only supplies and consumes
-// descriptions): a sequential prefix of CreateOffer / CreateAnswer / AddTransceiver / complete
-// exchanges in either role / "receive a remote offer", followed by a concurrent part: K
+// descriptions): a sequential prefix of CreateOffer / CreateAnswer / SetLocalDescription(offer) /
+// local and remote rollback / AddTransceiver / CreateDataChannel / complete exchanges in either
+// role / "receive a remote offer" (discarded and rolled-back descriptions count: a version once
+// handed out is never reused), followed by a concurrent part: K
 // goroutines (2..8) each issuing a list of CreateOffer / CreateAnswer calls, released together,
 // optionally with one more goroutine adding transceivers meanwhile.  The concurrent part runs
 // in stable (offers) or in have-remote-offer (offers and answers mixed).
@@ -38,13 +40,17 @@ type vfC11Case struct {
 }
 
 const (
-	vfC11SeqOffer     = iota // P.CreateOffer
-	vfC11SeqAnswer           // P.CreateAnswer (fails unless a remote offer is pending; then it generates nothing)
-	vfC11SeqAddTr            // P.AddTransceiverFromKind
-	vfC11SeqExchangeP        // complete exchange initiated by P (P's offer and Q's answer are generated)
-	vfC11SeqExchangeQ        // complete exchange initiated by Q (P generates an answer)
-	vfC11SeqRemoteOff        // Q creates an offer, P applies it (P goes to have-remote-offer if it was stable)
-	vfC11SeqFinishAns        // P: CreateAnswer + SetLocalDescription(answer) (leaves have-remote-offer)
+	vfC11SeqOffer       = iota // P.CreateOffer
+	vfC11SeqAnswer             // P.CreateAnswer (fails unless a remote offer is pending; then it generates nothing)
+	vfC11SeqAddTr              // P.AddTransceiverFromKind
+	vfC11SeqExchangeP          // complete exchange initiated by P (P's offer and Q's answer are generated)
+	vfC11SeqExchangeQ          // complete exchange initiated by Q (P generates an answer)
+	vfC11SeqRemoteOff          // Q creates an offer, P applies it (P goes to have-remote-offer if it was stable)
+	vfC11SeqFinishAns          // P: CreateAnswer + SetLocalDescription(answer) (leaves have-remote-offer)
+	vfC11SeqSetLocalOff        // P.SetLocalDescription(last offer P created) (P goes to have-local-offer if it was stable)
+	vfC11SeqRollbackL          // P.SetLocalDescription(rollback)  (legal from have-local-offer)
+	vfC11SeqRollbackR          // P.SetRemoteDescription(rollback) (legal from have-remote-offer)
+	vfC11SeqAddDC              // P.CreateDataChannel
 	vfC11SeqN
 )
 
@@ -140,12 +146,29 @@ func vfC11Run(v *vfT, c vfC11Case) {
 			added++
 		}
 	}
+	var lastOfferP *SessionDescription // last offer P created (what SetLocalDescription(offer) accepts)
 	exchange := func(a, b *PeerConnection, an, bn string) {
-		if a.SignalingState() != SignalingStateStable || b.SignalingState() != SignalingStateStable {
+		if b.SignalingState() != SignalingStateStable {
 			return
 		}
-		off, ok := gen(a, an, -1, false)
-		if !ok || a.SetLocalDescription(off) != nil || b.SetRemoteDescription(off) != nil {
+		var off SessionDescription
+		switch a.SignalingState() { //nolint:exhaustive
+		case SignalingStateStable:
+			var ok bool
+			off, ok = gen(a, an, -1, false)
+			if !ok || a.SetLocalDescription(off) != nil {
+				return
+			}
+		case SignalingStateHaveLocalOffer: // an offer is already pending: finish that exchange
+			d := a.PendingLocalDescription()
+			if d == nil {
+				return
+			}
+			off = *d
+		default:
+			return
+		}
+		if b.SetRemoteDescription(off) != nil {
 			return
 		}
 		ans, ok := gen(b, bn, -1, true)
@@ -162,10 +185,40 @@ func vfC11Run(v *vfT, c vfC11Case) {
 			_ = P.SetRemoteDescription(off)
 		}
 	}
+	nRollback, nSetLocalOffer := 0, 0
+	var firstRollbackAt int64 // logical clock of the first successful rollback (0 = none)
 	for _, op := range c.Seq {
 		switch ((op % vfC11SeqN) + vfC11SeqN) % vfC11SeqN {
 		case vfC11SeqOffer:
-			gen(P, "P", -1, false)
+			if d, ok := gen(P, "P", -1, false); ok {
+				dd := d
+				lastOfferP = &dd
+			}
+		case vfC11SeqSetLocalOff:
+			if lastOfferP != nil && P.SignalingState() == SignalingStateStable {
+				if P.SetLocalDescription(*lastOfferP) == nil {
+					nSetLocalOffer++
+				}
+			}
+		case vfC11SeqRollbackL:
+			if P.SetLocalDescription(SessionDescription{Type: SDPTypeRollback}) == nil {
+				nRollback++
+				if firstRollbackAt == 0 {
+					firstRollbackAt = clock.Add(1)
+				}
+			}
+		case vfC11SeqRollbackR:
+			if P.SetRemoteDescription(SessionDescription{Type: SDPTypeRollback}) == nil {
+				nRollback++
+				if firstRollbackAt == 0 {
+					firstRollbackAt = clock.Add(1)
+				}
+			}
+		case vfC11SeqAddDC:
+			if added < 6 {
+				_, _ = P.CreateDataChannel(fmt.Sprintf("dc%d", added), nil)
+				added++
+			}
 		case vfC11SeqAnswer:
 			gen(P, "P", -1, true)
 		case vfC11SeqAddTr:
@@ -267,6 +320,18 @@ func vfC11Run(v *vfT, c vfC11Case) {
 	if nAnswers > 0 {
 		v.Label("concurrent-answers-generated")
 	}
+	if nRollback > 0 {
+		v.Label("has-rollback")
+		for _, r := range recs {
+			if r.who == "P" && r.start > firstRollbackAt {
+				v.Label("description-generated-after-rollback")
+				break
+			}
+		}
+	}
+	if nSetLocalOffer > 0 {
+		v.Label("has-local-offer-applied-outside-exchange")
+	}
 	if len(perG) >= 2 {
 		v.Label("concurrent-goroutines>=2")
 	}
@@ -288,7 +353,7 @@ func vfC11Bucket(n int) string {
 
 func TestVerif_C11_Programs(t *testing.T) {
 	vfProperty(t, "C11", vfOpts{
-		Rule: "program = sequential prefix (0..10 ops: CreateOffer, CreateAnswer, AddTransceiver, full exchanges in both roles, receive remote offer, finish as answerer) + concurrent part (2..8 goroutines x 1..6 CreateOffer/CreateAnswer calls, optionally with concurrent AddTransceiver); non-trivial = at least two goroutines generated a description and at least four descriptions were generated in total",
+		Rule: "program = sequential prefix (0..20 ops: CreateOffer, CreateAnswer, SetLocalDescription(last created offer), local and remote rollback, AddTransceiver, CreateDataChannel, full exchanges in both roles (also finishing a pending local offer), receive remote offer, finish as answerer; a third of the programs start with exchange / offers / rollback / offer) + concurrent part (2..8 goroutines x 1..6 CreateOffer/CreateAnswer calls, optionally with concurrent AddTransceiver); non-trivial = at least two goroutines generated a description and at least four descriptions were generated in total",
 		Assumptions: []string{
 			"'earlier' = the earlier call had returned before the later one started (atomic logical clock around each call); overlapping calls only need distinct versions",
 			"session id and version are read from the o= line of the returned SDP",
@@ -296,7 +361,27 @@ func TestVerif_C11_Programs(t *testing.T) {
 		},
 	}, func(v *vfT) vfC11Case {
 		c := vfC11Case{Init: rapid.IntRange(0, 3).Draw(v.R, "init"), HRO: rapid.Bool().Draw(v.R, "hro")}
-		c.Seq = rapid.SliceOfN(rapid.IntRange(0, vfC11SeqN-1), 0, 10).Draw(v.R, "seq")
+		if rapid.IntRange(0, 2).Draw(v.R, "template") == 0 {
+			// discarded offers: complete an exchange, create (and maybe apply) offers, roll back, generate again
+			if rapid.Bool().Draw(v.R, "tRole") {
+				c.Seq = append(c.Seq, vfC11SeqExchangeP)
+			} else {
+				c.Seq = append(c.Seq, vfC11SeqExchangeQ)
+			}
+			for k := rapid.IntRange(1, 3).Draw(v.R, "tOffers"); k > 0; k-- {
+				if rapid.Bool().Draw(v.R, "tAdd") {
+					c.Seq = append(c.Seq, vfC11SeqAddTr)
+				}
+				c.Seq = append(c.Seq, vfC11SeqOffer)
+			}
+			if rapid.IntRange(0, 3).Draw(v.R, "tRemote") == 0 {
+				c.Seq = append(c.Seq, vfC11SeqRemoteOff, vfC11SeqAnswer, vfC11SeqRollbackR)
+			} else {
+				c.Seq = append(c.Seq, vfC11SeqSetLocalOff, vfC11SeqRollbackL)
+			}
+			c.Seq = append(c.Seq, vfC11SeqOffer)
+		}
+		c.Seq = append(c.Seq, rapid.SliceOfN(rapid.IntRange(0, vfC11SeqN-1), 0, 12).Draw(v.R, "seq")...)
 		k := rapid.IntRange(2, 8).Draw(v.R, "k")
 		for g := 0; g < k; g++ {
 			c.Conc = append(c.Conc, rapid.SliceOfN(rapid.IntRange(0, 1), 1, 6).Draw(v.R, "calls"))
